@@ -21,20 +21,20 @@ import rules_struct
 
 PROPS = {
     "C02": {
-        "rules": [rules_wt.run, rules_follow.make("R-HDR", "C02"), rules_follow.make("R-INIT", "C02"), rules_struct.freshid],
+        "rules": [rules_wt.run, rules_follow.make("R-HDR", "C02"), rules_follow.make("R-INIT", "C02"), rules_struct.freshid, rules_struct.hdrcount("C02")],
         "explanation": "R-WT: every store site to an in-memory mirror of on-disk state (cached FAT/DIFAT/DIFAT-sector list, MiniFAT and its start sector, directory entry table, sector count; enumerated automatically from MIR: &mut borrows of mirror fields, stores through dir_entry_mut, direct field stores) is paired in the same function with a file write of the same datum "
                        "(same value by provenance, or write_dir_entry/write_to/seek_within_dir_entry+write_le_u32 of the same entry id at the field's offset), either dominating the store or on every Ok path after it; six listed exceptions with reasons. "
                        "R-HDR: header counters (words 40/44/60/64/68/72) are rewritten in the same function that changes the chain they count, on every Ok path. R-INIT: every sector handed out by allocate_sector - reused from the free list or appended - is reset with the caller's initialiser before it is returned (a directory sector recycled without SectorInit::Dir would reopen as garbage entries).",
         "not_decided": "that the bytes reopen to the same state; that the right value is written; crash points inside an operation",
     },
     "C03": {
-        "rules": [rules_follow.make("R-MARK"), rules_follow.make("R-HDR", "C03"), rules_follow.make("R-BLANK"), rules_follow.make("R-INIT", "C03"), rules_own.make("C03"), rules_entry.gstore, rules_layout.run("C03"), rules_struct.cutoff, rules_struct.unit, rules_struct.freshid],
+        "rules": [rules_follow.make("R-MARK"), rules_follow.make("R-HDR", "C03"), rules_follow.make("R-BLANK"), rules_follow.make("R-INIT", "C03"), rules_own.make("C03"), rules_entry.gstore, rules_layout.run("C03"), rules_struct.cutoff, rules_struct.unit, rules_struct.freshid, rules_follow.make("R-FREEOLD", "C03"), rules_struct.hdrcount("C03")],
         "explanation": "Format-maintenance obligations visible as code shape: R-MARK (FAT/DIFAT sectors marked as such; allocated cell END_OF_CHAIN before use; freed cells FREE), R-HDR (header counts follow the chains), "
                        "R-BLANK (a removed entry's slot is overwritten with DirEntry::unallocated() on disk), R-GSTORE (no CLSID/timestamps on streams: every store to those fields is dominated by a test excluding ObjType::Stream; only storages are stamped at creation), R-OWN (allocation protocol: who may change FAT cells / free lists / initialise sectors), R-LAYOUT (symbolic walk of DirEntry::read_from/write_to and Header::read_from/write_to in control-flow order: same widths, counts and fields at the same offsets, totals 128 and 512, in-place patch offsets 68/72/76 and 40/44/60/64/68/72/76 equal the derived field offsets).",
         "not_decided": "single ownership of sectors, no orphans, chain length vs stream size, sibling-tree order and colouring: invariants over the contents of FAT and directory across histories",
     },
     "C07": {
-        "rules": [rules_entry.reloc, rules_entry.hstore, rules_own.make("C07"), rules_struct.cutoff, rules_entry.moveall],
+        "rules": [rules_entry.reloc, rules_entry.hstore, rules_own.make("C07"), rules_struct.cutoff, rules_entry.moveall, rules_struct.unlink("C07"), rules_struct.blankown("C07")],
         "explanation": "A handle is bound to its stream only by a slot index, so: R-RELOC - every whole-entry store into the directory table takes a freshly constructed entry (DirEntry::new/unallocated/empty_root_entry/read_from by provenance), never a copy of another slot, and no Vec reordering is applied to the table; "
                        "R-HSTORE - all DirEntry field stores reachable (call graph) from Stream methods are confined to start_sector/stream_len, no structural directory operation is reachable from a handle, and with_dir_entry_mut is applied to the handle's own stream_id; R-OWN - FAT/MiniFAT cells, sector (re)initialisation and the free lists change only inside the allocator's protocol functions with the protocol's argument shapes (a sector taken outside the protocol could be handed to two chains, so that a write through one handle lands in another stream).",
         "not_decided": "that the bytes of other streams are untouched (sector ownership is value-level); validity of a handle after its own stream is removed",
@@ -57,13 +57,13 @@ PROPS = {
         "not_decided": "equality with a byte vector for all call sequences and buffer sizes (values of pos/cap/offset/total_len across histories); set_len near u64::MAX",
     },
     "C08": {
-        "rules": [rules_zero.run, rules_follow.make("R-INIT", "C08")],
+        "rules": [rules_zero.run, rules_follow.make("R-INIT", "C08"), rules_io.poskeep],
         "explanation": "R-ZERO: in the function that stores a stream's new length (resize_stream, reached from Stream::set_len), a zero-fill event (a backend write whose data provenance is io::repeat(0) / [0; N], directly or in a direct helper) exists, is controlled only by the comparison new length > old length, and lies on every path from the 'grows' edge of that comparison to the length store (error exits excepted). "
                        "Alternatively accepted: zeroing on shrink in both chain kinds plus zeroing of newly allocated mini sectors. R-INIT: regular sectors are reset with the requested initialiser (SectorInit::Zero for stream data) on both the reuse and the append path of allocate_sector.",
         "not_decided": "that the bytes are zero and that the zero-filled range is exactly [old, new): values",
     },
     "C09": {
-        "rules": [rules_name.validname, rules_name.norm, rules_name.orient, rules_struct.unit, rules_api.errkind("C09")],
+        "rules": [rules_name.validname, rules_name.norm, rules_name.orient, rules_struct.unit, rules_struct.unlink("C09"), rules_struct.blankown("C09"), rules_api.errkind("C09")],
         "explanation": "R-VALIDNAME (must-pass-through, interprocedural): from every DirEntry::new call with a non-constant name, walking up the call graph along the name argument to the public methods, some function validates the name (ok successor of validate_name on data derived from the same parameter dominates the forwarding call; a completed validation loop counts) and no state mutation precedes that validation on the chain. "
                        "R-NORM: every API method's path parameter reaches only name_chain_from_path (or formatting / forwarding to another API method), and lookups/inserts/removals take names derived from its result. "
                        "R-ORIENT: all compare_names sites agree on orientation (sought name first; Less -> left_sibling, Greater -> right_sibling in both the walk and the link update; validate rejects exactly != Less for (left,node) and (node,right)); no other comparator touches entry names in the directory layer. "
@@ -84,7 +84,7 @@ PROPS = {
         "assumptions": ["audited sink entries (rules/sinks.json) record a human judgement made once by reading the code; the analysis re-checks only that their required guards still dominate the sink"],
     },
     "C12": {
-        "rules": [rules_io.errdisc(["io_read", "io_seek"], "read"), rules_io.window],
+        "rules": [rules_io.errdisc(["io_read", "io_seek"], "read"), rules_io.window, rules_det.noerrafter("C12")],
         "explanation": "R-ERRDISC(read): every call site whose callee transitively performs backend read/seek and returns io::Result is classified by what happens to the Result (?, returned, matched with an Err arm that returns Err; not dropped, .ok(), unwrap_or, is_ok). "
                        "R-WINDOW on error exits: after the buffer window offset moves, no error exit may leave the old window's bytes in place.",
         "not_decided": "that the bytes returned equal the fault-free run (values); behaviour of std's read_exact/read_to_end themselves",
@@ -117,7 +117,7 @@ PROPS = {
         "not_decided": "exact values returned; 100 ns rounding direction; saturation limits; clock bracketing of a new storage's times (values)",
     },
     "C18": {
-        "rules": [rules_det.short, rules_det.seekfirst, rules_det.nondet, rules_io.poskeep],
+        "rules": [rules_det.short, rules_det.seekfirst, rules_det.nondet, rules_io.poskeep, rules_det.kindkeep("C18")],
         "explanation": "R-SHORT: each of the short-count primitives (Read::read/Write::write call sites) returns its count to the caller and advances its position by exactly that count, so results cannot depend on how the backend splits transfers; everything else uses exact-transfer forms. "
                        "R-SEEKFIRST: raw backend I/O occurs only in Sector methods, the absolute-seek helpers and two listed sequential constructors; a Sector is only built after a successful seek(SeekFrom::Start). "
                        "R-NONDET: clock reads confined to Timestamp::now (from insert_dir_entry) and touch; no iteration over randomly seeded hash containers; no pointer-to-integer casts.",
